@@ -1,5 +1,7 @@
 import Autog.Model.Phase3
 import Autog.Properties.C04
+import Autog.Lemmas.LayersPipeline
+import Autog.Lemmas.StaticP4
 /-! # C12 — the reported crossing count is the crossing count of the drawing
 
     (1) Counter exactness, for all bilayers: the function the model of `countCrossings` calls
@@ -7,8 +9,11 @@ import Autog.Properties.C04
     size of the smaller layer — exactly Go's `k := 1; for k < q { k *= 2 }`) returns the number of inverted pairs of any
     duplicate-free edge set within bounds (`C12_counter_exact`). Tie: `T:crossings` — the model's total over the returned
     order equals the number the real code logged, on every traced run, also beyond 64 layers.
-    (2) PARTIAL: that WMedian restores exactly the order whose count it logs, and that the positioners keep the order
-    (strictly increasing centre x along every layer list), are decided per run: `T:crossings`, `K:ordered`, the positioner
+    (2) On the composed model the state phase 3 hands over is an order (`C12_ordered_after_phase3`: layer lists sorted by LayerPos
+    0..k−1 — the projection `orderWMedianP` checks it, `K:ordered` evaluates the same predicate on the real code), and VAlign, PackRight
+    (`C12_valign/_packright_keeps_order_on_pipeline`, nothing assumed about the state) and SinkColoring (under `K:layered`) draw every
+    layer list with strictly increasing centres.
+    PARTIAL: that WMedian restores exactly the order whose count it logs is decided per run: `T:crossings`, `K:ordered`, the positioner
     and router keys, and the predicate "logged = crossings recomputed from output x coordinates". -/
 
 namespace Autog
@@ -128,5 +133,42 @@ theorem C12_sinkcoloring_keeps_order_layered (ns : Rat) (hns : 0 < ns) (g : G) (
 
 example : countCrossingsModel (ceilLog2 (min 3 3)) 3 3 [(0, 2), (1, 0), (2, 1)] = 2 := by decide +kernel
 example : crossings [(0, 2), (1, 0), (2, 1)] = 2 := by decide
+
+
+/-! ### on the composed model: the order phase 3 hands over, and what the positioners make of it -/
+
+/-- the state the ordering phase of the composed model hands to phase 4 is an order: every layer list is sorted by LayerPos 0..k−1 and
+    every node sits in the list of its own layer (the projection `orderWMedianP` checks it; `K:ordered` evaluates the same predicate on
+    the traced state of the real code, `T:phase3-wmedian` compares the two states) -/
+theorem C12_ordered_after_phase3 (g2 g3 : G) (hn : (g2.nodes.size == 1 || g2.layers.size == 1) = false)
+    (h3 : phase3Model (fun g => (orderWMedianP 24 g).map (·.1)) g2 = .ok g3) : orderedOK g3 = true := by
+  unfold phase3Model at h3
+  simp only [hn, Bool.false_eq_true, if_false, bind, Except.bind] at h3
+  cases hb : breakLongEdges g2 with
+  | error e => simp [hb] at h3
+  | ok gb =>
+    simp only [hb] at h3
+    cases hp : orderWMedianP 24 gb with
+    | error e => simp [hp, Except.map] at h3
+    | ok r =>
+      obtain ⟨g', x⟩ := r
+      simp only [hp, Except.map, Except.ok.injEq] at h3
+      subst h3
+      exact orderWMedianP_ordered 24 gb g' x hp
+
+/-- END TO END on the composed model (VAlign): along every layer list phase 3 hands over — ordered by LayerPos, `C12_ordered_after_phase3` —
+    the node centres VAlign assigns are strictly increasing (NodeSpacing > 0, non-negative widths): the drawn left-to-right order IS the
+    order whose crossings were counted -/
+theorem C12_valign_keeps_order_on_pipeline (cfg : Cfg) (hns : 0 < cfg.ns) (g1 g2 g3 : G) (h2 : phase2Model cfg g1 = .ok g2)
+    (h3 : phase3Model (fun g => (orderWMedianP 24 g).map (·.1)) g2 = .ok g3) (l : Layer) (hl : l ∈ g3.layers.toList)
+    (hw : ∀ w ∈ widthsOf g3 l, 0 ≤ w) :
+    StrictlyIncreasing (centres (xsOf (execVerticalAlign cfg.ns g3) l) (widthsOf (execVerticalAlign cfg.ns g3) l)) :=
+  C12_valign_keeps_order cfg.ns hns g3 (layersWF_upto_phase3 cfg g1 g2 g3 h2 h3) l hl hw
+
+theorem C12_packright_keeps_order_on_pipeline (cfg : Cfg) (hns : 0 < cfg.ns) (g1 g2 g3 : G) (h2 : phase2Model cfg g1 = .ok g2)
+    (h3 : phase3Model (fun g => (orderWMedianP 24 g).map (·.1)) g2 = .ok g3) (l : Layer) (hl : l ∈ g3.layers.toList)
+    (hw : ∀ w ∈ widthsOf g3 l, 0 ≤ w) :
+    StrictlyIncreasing (centres (xsOf (execPackRight cfg.ns g3) l) (widthsOf (execPackRight cfg.ns g3) l)) :=
+  C12_packright_keeps_order cfg.ns hns g3 (layersWF_upto_phase3 cfg g1 g2 g3 h2 h3) l hl hw
 
 end Autog
